@@ -43,7 +43,10 @@ def run_check(prop, tree):
 
 def evaluate(entry, repo, props):
     kind, cid, patch, target = entry
-    tree = make_tree(repo, patch)
+    try:
+        tree = make_tree(repo, patch)
+    except RuntimeError as e:
+        return entry, {p: (None, 'patch does not apply to the current tree: ' + str(e)[-120:]) for p in props}
     try:
         res = {p: run_check(p, tree) for p in props}
     finally:
@@ -94,12 +97,18 @@ def main():
             if kind == 'seeded':
                 rc = res.get(target, (None, ''))[0]
                 verdict = {1: 'caught', 2: 'UNDECIDED', 0: 'MISSED', None: 'not run'}[rc]
+                if rc is None and target in res and res[target][1].startswith('patch does not apply'):
+                    verdict = 'superseded (patch no longer applies)'
                 others = [p for p, (c, _) in res.items() if c == 1 and p != target]
                 print('seeded     {:6} breaks {}  {}{}'.format(cid, target, verdict, '  also: ' + ','.join(others) if others else ''))
                 if rc != 1 and rc is not None:
                     bad += 1
                     print('      ', res[target][1])
             else:
+                if any(c is None and m.startswith('patch does not apply') for c, m in res.values()):
+                    print('preserving {:6} PATCH DOES NOT APPLY to the current tree'.format(cid))
+                    bad += 1
+                    continue
                 alarms = [p for p, (c, _) in res.items() if c == 1]
                 undec = [p for p, (c, _) in res.items() if c == 2]
                 print('preserving {:6} false alarms: {}  undecided: {}'.format(cid, ','.join(alarms) or '-', ','.join(undec) or '-'))
